@@ -221,7 +221,7 @@ def build_meta(spec):
         node = by_resid[(res["resid"], "R%d" % res["type"])]
         nx.set_node_attributes(meta, {node: {"resname": "R%d" % res["type"],
                                              "template": spec["types"][res["type"]]["key"],
-                                             "position": np.array(res["pos"], dtype=float),
+                                             "position": np.array(res["pos"], dtype=spec.get("pos_dtype", "float64")),
                                              "resid": res["resid"], "backmap": res["backmap"]}})
     meta.templates = {t["key"]: {k: np.array(v, dtype=float) for k, v in t["template"]} for t in spec["types"]}
     return meta
@@ -275,7 +275,7 @@ def run_backmap(meta, fudge, via, np_seed, second_pass=None):
     for moved in ([None] if second_pass is None else [None, second_pass]):
         if moved is not None:
             for node, pos in zip(meta.nodes, moved):
-                meta.nodes[node]["position"] = np.array(pos, dtype=float)
+                meta.nodes[node]["position"] = np.array(pos, dtype=np.asarray(meta.nodes[node]["position"]).dtype)
         with Recorder() as rec:
             try:
                 if via == "run_system":
@@ -660,6 +660,27 @@ def gen_backmap_repeated(ctx):
     return out
 
 
+def gen_backmap_dtype(ctx):
+    """the residue positions as arrays of another dtype than float64 (int64 — as polyply's own backmapping test hands
+    them in —, float32, int32): the atom coordinates are real numbers whatever the dtype of the residue position.
+    Own generator."""
+    import random
+    rng = random.Random(("pos-dtype", ctx.seed, ctx.pid).__repr__())
+    out = []
+    for _ in range(ctx.budget(40, 600)):
+        seed = rng.randint(0, 10 ** 9)
+        spec = gen_molecule_spec(random.Random(seed), ctx.thorough)
+        spec["pos_dtype"] = rng.choice(["int64", "int64", "int32", "float32"])
+        if spec["pos_dtype"].startswith("int"):
+            for res in spec["residues"]:
+                res["pos"] = [float(int(round(x))) for x in res["pos"]]
+            if "second_pass" in spec:
+                spec["second_pass"] = [[float(int(round(x))) for x in p] for p in spec["second_pass"]]
+        out.append(dict(stream="backmap", spec=spec, np_seed=seed % 100000, pos_dtype=spec["pos_dtype"],
+                        probe=sorted(s for s in FINDING_SHAPES if enabled(s))))
+    return out
+
+
 def gen_pipeline(ctx):
     rng = ctx.rng
     if not os.path.exists(os.path.join(common.HERE, "c15.py")):
@@ -755,6 +776,7 @@ def run(ctx):
     run_cases(ctx, replays)
     run_cases(ctx, gen_objective(ctx))
     run_cases(ctx, gen_backmap_repeated(ctx))
+    run_cases(ctx, gen_backmap_dtype(ctx))
     if ctx.failures:
         shrink(ctx)
 
